@@ -1836,8 +1836,14 @@ func patchCode(context *funcContext) { // {{{
 		case OP_JMP: // jump to jump optimization
 			distance := 0
 			count := 0 // avoiding infinite loops
-			for jmp := inst; opGetOpCode(jmp) == OP_JMP && count < 5; jmp = context.Code.At(pc + distance + 1) {
-				d := context.GetLabelPc(opGetArgSbx(jmp)) - pc
+			for at, jmp := pc, inst; opGetOpCode(jmp) == OP_JMP && count < 5; at, jmp = pc+distance+1, context.Code.At(pc+distance+1) {
+				var d int
+				if at < pc {
+					// instructions before pc are already patched: sBx is a distance, no longer a label
+					d = at + opGetArgSbx(jmp) - pc
+				} else {
+					d = context.GetLabelPc(opGetArgSbx(jmp)) - pc
+				}
 				if d > opMaxArgSbx || d < -opMaxArgSbx {
 					if distance == 0 {
 						raiseCompileError(context, context.Proto.LineDefined, "too long to jump.")
